@@ -69,7 +69,11 @@ def st_scenario_base(draw):
         bw = draw(st.integers(1, 3))
         B = [[draw(st.sampled_from(CELLS[:6])) for _ in range(bw)] for _ in range(draw(st.integers(1, 4)))]
         b_names = ['j_' + x for x in qgen.st_names(draw, bw)]
-        join = qgen.st_join(draw, aw, bw, a_names, b_names, kinds=['JOIN', 'INNER JOIN'], max_pairs=2, allow_nr=False)   # LEFT JOIN would put None (pandas: NaN) into the output
+        join = qgen.st_join(draw, aw, bw, a_names, b_names, kinds=['JOIN', 'INNER JOIN'], max_pairs=2, allow_nr=True)   # LEFT JOIN would put None (pandas: NaN) into the output
+        for pr in join['pairs']:
+            for side in ('l', 'r'):
+                if pr[side].get('nr') in ('a.NR', 'b.NR'):
+                    pr[side]['nr'] = 'NR' if side == 'l' else 'bNR'      # a header is in force here
         join['table'] = 'b'
     ctx = qgen.Ctx(draw, aw, a_names, bw, b_names, has_join=join is not None)
     ctx.no_past_end = True
@@ -93,6 +97,14 @@ def st_scenario_base(draw):
         if draw(st.integers(0, 2)) == 0:
             q['where'] = qgen.e_truthy(ctx)
         return {'A': A, 'B': None, 'a_names': a_names, 'b_names': None, 'q': q}
+    if kind == 5 and draw(st.integers(0, 3)) == 0:
+        # a large result (several thousand output lines): buffered writers must flush everything exactly once
+        nbig = draw(st.sampled_from([1023, 1024, 1025, 2500, 5000]))
+        Abig = [['r%d' % i, CELLS[i % len(CELLS)]] for i in range(nbig)]
+        qb = {'type': 'select', 'items': [{'k': 'star'}, {'k': 'expr', 'e': {'py': 'NR', 'js': 'NR', 'name': {'id': 'NR'}, 'ty': 'int'}}], 'join': None}
+        if draw(st.booleans()):
+            qb['order'] = {'keys': [qgen.mk('-NR', '-NR', 'int')], 'desc': False, 'asc_kw': False}
+        return {'A': Abig, 'B': None, 'a_names': ['id', 'val'], 'b_names': None, 'q': qb}
     if kind == 4:
         # a lone star item over a join in which records are emitted several times, with cells that need quoting
         A2 = [[draw(st.sampled_from(['k1', 'k2'])), draw(st.sampled_from(['p,q', 'q"r', 'plain', 'x y']))] for _ in range(draw(st.integers(1, 4)))]
@@ -132,6 +144,9 @@ def st_scenario_base(draw):
                 it['alias'] = draw(st.sampled_from(qgen.ALIAS_POOL))
                 it['as_kw'] = draw(st.sampled_from(['AS', 'as']))
             items.append(it)
+    if join is not None and draw(st.booleans()):
+        items.append({'k': 'expr', 'e': {'py': 'bNR', 'js': 'bNR', 'name': {'id': 'bNR'}, 'ty': 'int'}})
+        items.append({'k': 'expr', 'e': {'py': 'NR', 'js': 'NR', 'name': {'id': 'NR'}, 'ty': 'int'}})
     q = {'type': 'select', 'items': items, 'join': join}
     if join is None and draw(st.integers(0, 6)) == 0:
         q['items'] = [{'k': 'star'}]
